@@ -242,3 +242,52 @@ def u_mvn_derived(ip):
              and any(is_z3(x) and x.eq(z3.Real("derived_rank")) for x in list(a[1:]) + list(k.values())) and any(x is tol for x in list(a[1:]) + list(k.values())))
     d2 = Obj(cls, {"_prec": P, "_loc": z3.Const("loc", U), "_rank": z3.Real("given_rank"), "_log_pdet": z3.Real("given_lpd"), "_tol": tol})
     c.oblige("supplied_values_win", ip.getattr(d2, "rank").eq(z3.Real("given_rank")) and ip.getattr(d2, "log_pdet").eq(z3.Real("given_lpd")))
+
+
+def mvn_real_ctor(ip, P, loc, tol, rank=None, log_pdet=None, dim=3):
+    """the distribution object as the REAL constructor builds it (event size `dim`, no batch dimensions); the TFP base-class
+    constructor and batch_shape are stubs (T: tfd.Distribution.__init__ stores nothing this class reads)"""
+    cls = ip.repo(f"{MVN}::MultivariateNormalDegenerate")
+    ip.opaque_attr["shape"] = lambda ip_, v: (dim, dim) if v.eq(P) else (dim,)
+    ip.models["jax.numpy.atleast_1d"] = lambda ip_, x: x
+    ip.models["jax.numpy.shape"] = lambda ip_, x: ip_.getattr(x, "shape")
+    ip.models["jax.numpy.expand_dims"] = lambda ip_, x, axis=None: x
+    ip.models["extattr:batch_shape"] = lambda ip_, o: list(ip_.call(method(ip_, o, "_batch_shape"), [], {}))  # T: tfd.Distribution.batch_shape = self._batch_shape()
+    ip.models["tensorflow_probability.substrates.jax.tf2jax.TensorShape"] = lambda ip_, dims: tuple(dims)
+    import jax.numpy as _jnp
+    ip.models["jax.numpy.broadcast_shapes"] = lambda ip_, *shapes: _jnp.broadcast_shapes(*shapes)
+    kw = {"rank": rank, "log_pdet": log_pdet}
+    if tol is not None:
+        kw["tol"] = tol
+    return cls, kw
+
+
+@unit("C18.mvn_degen_init", "C18", [f"{MVN}::MultivariateNormalDegenerate.__init__", f"{MVN}::MultivariateNormalDegenerate.rank", f"{MVN}::MultivariateNormalDegenerate.log_pdet",
+                                    f"{MVN}::_rank", f"{MVN}::_log_pdet"],
+      assumptions=["event size 3, no batch dimensions; A-REAL; T: jnp.linalg.eigh(P) returns the eigenvalues of P in ascending order; "
+                   "T: the TFP base-class constructor stores nothing this class reads"])
+def u_mvn_init(ip):
+    """an object built by the REAL constructor with a user tolerance `tol` (and no rank / log_pdet) derives rank = number of eigenvalues
+    of the precision above exactly that tolerance and log_pdet = sum of their logs; with the default tolerance the threshold is 1e-6;
+    supplied rank / log_pdet are stored as given."""
+    from pyvc.models_jax import CVec
+    c = ip.ctx
+    P, loc = z3.Const("P", U), z3.Const("loc", U)
+    ev = CVec([c.fresh(f"ev{i}", Real) for i in range(3)])
+    c.assume(And(ev[0] <= ev[1], ev[1] <= ev[2]))
+    ip.models["jax.numpy.linalg.eigh"] = lambda ip_, m: (ev, ip_.uf("eigvecs_of", ip_.to_U(m)))
+    c.assume(LOG(z3.RealVal(1)) == 0)
+    for tag, tol in (("user_tol", c.fresh("tol", Real)), ("default_tol", None)):
+        if tol is not None:
+            c.assume(tol > 0)
+        cls, kw = mvn_real_ctor(ip, P, loc, tol)
+        d = ip.call(cls, [loc, P], kw)
+        t = tol if tol is not None else z3.RealVal("1/1000000")
+        r = ip.getattr(d, "rank")
+        c.oblige(f"derived_rank_counts_eigenvalues_above_the_given_tolerance.{tag}", to_sort(r, Int) == sum(If(e > t, 1, 0) for e in ev))
+        lp = ip.getattr(d, "log_pdet")
+        c.oblige(f"derived_log_pdet_sums_logs_of_eigenvalues_above_the_given_tolerance.{tag}", to_sort(lp, Real) == sum(If(e > t, LOG(e), z3.RealVal(0)) for e in ev))
+    rk, lpd = c.fresh("rank_in", Real), c.fresh("lpd_in", Real)
+    cls, kw = mvn_real_ctor(ip, P, loc, None, rank=rk, log_pdet=lpd)
+    d = ip.call(cls, [loc, P], kw)
+    c.oblige("supplied_rank_and_log_pdet_stored_as_given", And(to_sort(ip.getattr(d, "rank"), Real) == rk, to_sort(ip.getattr(d, "log_pdet"), Real) == lpd))
